@@ -214,11 +214,34 @@ func c20History(c *h.Ctx, id string, r *rand.Rand) {
 	}()
 	cr.face = simeng.NewFace(true)
 	cr.eng = basic.NewEngine(cr.face, cr.tm, sec.NewSha256IntSigner(cr.tm), func(enc.Name, enc.Wire, ndn.Signature) bool { return true })
+	u := gen.NewUniverse(3, false)
+	attach := func(nm enc.Name, when string) {
+		ev := &c20Event{Ev: "attach" + when, Name: nm.String()}
+		cr.hist = append(cr.hist, ev)
+		key := nkey(nm)
+		err := cr.eng.AttachHandler(nm.Clone(), func(a ndn.InterestHandlerArgs) {
+			cr.called = append(cr.called, key)
+			cr.incoming = append(cr.incoming, a)
+		})
+		_, had := cr.handlers[key]
+		if had != (err != nil) {
+			cr.fail("C20:attach-result", fmt.Sprintf("AttachHandler(%s) returned %v although a handler %s attached there", nm, err, map[bool]string{true: "is already", false: "is not"}[had]), nil)
+		}
+		if !had && err == nil {
+			cr.handlers[key] = nm.Clone()
+		}
+		c.Distinct("attach" + when)
+	}
+	if r.Intn(3) == 0 {
+		// an application may attach its handlers first and start the engine afterwards
+		for k := 1 + r.Intn(2); k > 0; k-- {
+			attach(u.Pick(r), "-before-start")
+		}
+	}
 	if err := cr.eng.Start(); err != nil {
 		c.Inconclusive("engine start: " + err.Error())
 		return
 	}
-	u := gen.NewUniverse(3, false)
 	lifes := []time.Duration{100 * time.Millisecond, 500 * time.Millisecond, 4 * time.Second}
 	n := 25 + r.Intn(30)
 	pick := func() enc.Name {
@@ -283,22 +306,7 @@ func c20History(c *h.Ctx, id string, r *rand.Rand) {
 			cr.hist = append(cr.hist, ev)
 			cr.stepAdvance(time.Duration(ms)*time.Millisecond, ev)
 		case k < 86: // ATTACH
-			nm := u.Pick(r)
-			ev := &c20Event{Ev: "attach", Name: nm.String()}
-			cr.hist = append(cr.hist, ev)
-			key := nkey(nm)
-			err := cr.eng.AttachHandler(nm.Clone(), func(a ndn.InterestHandlerArgs) {
-				cr.called = append(cr.called, key)
-				cr.incoming = append(cr.incoming, a)
-			})
-			_, had := cr.handlers[key]
-			if had != (err != nil) {
-				cr.fail("C20:attach-result", fmt.Sprintf("AttachHandler(%s) returned %v although a handler %s attached there", nm, err, map[bool]string{true: "is already", false: "is not"}[had]), nil)
-			}
-			if !had && err == nil {
-				cr.handlers[key] = nm.Clone()
-			}
-			c.Distinct("attach")
+			attach(u.Pick(r), "")
 		case k < 90: // DETACH
 			var nm enc.Name
 			if ks := sortedKeys(cr.handlers); len(ks) > 0 && r.Intn(4) != 0 {
